@@ -341,6 +341,15 @@ def wire_lines(ctx, log, mark, problems):
 def compare(helper, ref, got, gated):
     if gated:
         got = [g for g in got if g.upper() != "V"]
+    if helper == "motors_enable" and got and isinstance(ref, list) and got != ref:
+        # the documented command is the final EM,c1,c2; the auxiliaries (CU,50,0 / QE / EM,c2,c2) may come
+        # in any order as long as EM,c2,c2 - which depends on the QE answer - does not precede QE
+        aux_ok = sorted(got[:-1]) == sorted(ref[:-1]) and got[-1] == ref[-1]
+        if aux_ok and "QE" in got:
+            pre = [g for g in got[:-1] if g.startswith("EM,")]
+            aux_ok = all(got.index(g) > got.index("QE") for g in pre)
+        if aux_ok:
+            return None
     if isinstance(ref, tuple) and ref[0] == "pause":
         ok, why = pause_ok(ref[1], got)
         return None if ok else {"kind": "timed pause not conserved", "why": why, "wrote": got[:8], "n": ref[1]}
